@@ -102,6 +102,35 @@ def _pkg_name(pkgdir):
     raise RuntimeError("no package clause found in %s" % pkgdir)
 
 
+CURRENT_PID = None   # set by check.py: the property being checked
+_READY = None
+
+
+def _ready_pids():
+    """ids of the plugins marked ready (their drivers may be injected into any run)."""
+    global _READY
+    if _READY is None:
+        _READY = set()
+        for f in glob.glob(os.path.join(VERIF, "tools", "props", "c*.py")):
+            try:
+                txt = open(f).read()
+            except OSError:
+                continue
+            if re.search(r"^\s*ready\s*=\s*True", txt, flags=re.M):
+                _READY.add(os.path.basename(f)[:-3].lower())
+    return _READY
+
+
+def _driver_wanted(basename):
+    """A driver file zz_verif_cNN*_test.go is injected only if property CNN is claimed (ready) or is the one being
+    checked: a half-written driver of an unfinished property must not break the build of the others."""
+    m = re.match(r"zz_verif_(c\d\d+)", basename)
+    if not m:
+        return True   # shared helper
+    pid = m.group(1)
+    return pid in _ready_pids() or (CURRENT_PID is not None and pid == CURRENT_PID.lower())
+
+
 def build_overlay(workdir, pkgdirs):
     """Overlay JSON: stub embed files that the pinned tree lacks + in-package drivers.
 
@@ -119,7 +148,8 @@ def build_overlay(workdir, pkgdirs):
         name = _pkg_name(pkgdir)
         src = os.path.join(HARNESS, "inpkg", pkgdir)
         for f in sorted(glob.glob(os.path.join(src, "*.go"))):
-            repl[os.path.join(REPO, pkgdir, os.path.basename(f))] = f
+            if _driver_wanted(os.path.basename(f)):
+                repl[os.path.join(REPO, pkgdir, os.path.basename(f))] = f
         for t in sorted(glob.glob(os.path.join(HARNESS, "common", "*.go.tmpl"))):
             inst = os.path.join(workdir, pkgdir.replace("/", "_") + "_" + os.path.basename(t)[:-5])
             with open(t) as fh:
